@@ -829,7 +829,7 @@ impl<'a> Visitor<'a> {
             || path_buf.extension() == Some(OsStr::new("css"))
         {
             let extension = path_buf.extension().unwrap();
-            try_path!(path_buf.with_extension(format!(".import{}", extension.to_str().unwrap())));
+            try_path!(path_buf.with_extension(format!("import.{}", extension.to_str().unwrap())));
             try_path!(path_buf);
             // todo: consider load paths
             return None;
